@@ -29,16 +29,18 @@ def _process_vlandb(rule, key, diff, hw, explicit_changing, multi_chunk):
     (prefix2, old, old_blocks) = _parse_vlancfg_actions(diff[Op.REMOVED])
     if not prefix:
         prefix = prefix2
+    # вланы, перечисленные в строках, которые не меняются (или в блоках, меняющихся только внутри), остаются на устройстве
+    (_, kept, _) = _parse_vlancfg_actions(diff[Op.UNCHANGED] + diff[Op.AFFECTED])
 
     if len(diff[Op.ADDED]) == 1 and len(new) == 0:
         # switchport trunk allowed vlan none
         yield (True, "%s none" % prefix, None)
         return
-    for vlan_id in ((set(old_blocks.keys()) - set(new_blocks)) & new):
+    for vlan_id in ((set(old_blocks.keys()) - set(new_blocks)) & (new | kept)):
         # Удалено содержимое блока vlan, но сам влан остался
         yield (True, "%s %s" % (prefix, vlan_id), old_blocks[vlan_id])
 
-    removed = old.difference(new)
+    removed = old.difference(new).difference(kept)
     added = new.difference(old)
     if hw.Catalyst:
         # Каталисты не перечисляют вланы в batch режиме, если они представлены как блоки
